@@ -160,5 +160,48 @@ func genHubTable() {
 	fmt.Fprintf(&sb, "Definition hub_guard_prepare : bool := %s.\n", b(guarded("prepareConnectionInitation")))
 	fmt.Fprintf(&sb, "Definition hub_guard_initiate : bool := %s.\n", b(guarded("initateConnection")))
 	fmt.Fprintf(&sb, "Definition hub_guard_reannounce : bool := %s.\n", b(guarded("checkAutoReannounce")))
+
+	// prepareConnectionInitation: does the branch that drops a stale attempt (counter check)
+	// call checkAutoReannounce?
+	callsMethod := func(n ast.Node, name string) bool {
+		found := false
+		ast.Inspect(n, func(x ast.Node) bool {
+			if ce, ok := x.(*ast.CallExpr); ok {
+				if sel, ok := ce.Fun.(*ast.SelectorExpr); ok && sel.Sel.Name == name {
+					found = true
+				}
+			}
+			return true
+		})
+		return found
+	}
+	mentions := func(n ast.Node, ident string) bool {
+		found := false
+		ast.Inspect(n, func(x ast.Node) bool {
+			if id, ok := x.(*ast.Ident); ok && id.Name == ident {
+				found = true
+			}
+			return true
+		})
+		return found
+	}
+	stale := false
+	if fd := hub.funcDecl("Hub", "prepareConnectionInitation"); fd != nil && fd.Body != nil {
+		for _, st := range fd.Body.List {
+			if is, ok := st.(*ast.IfStmt); ok && mentions(is.Cond, "counter") && callsMethod(is.Body, "checkAutoReannounce") {
+				stale = true
+			}
+		}
+	}
+	// ServeHTTP and connectFoundService register through a function that re-applies the
+	// double-connection rule under the registry lock and closes the loser
+	recheck := false
+	if rc := hub.funcDecl("Hub", "registerCheckedConnection"); rc != nil && rc.Body != nil &&
+		callsMethod(rc.Body, "CloseConnection") && mentions(rc.Body, "connections") {
+		a, b := hub.funcDecl("Hub", "ServeHTTP"), hub.funcDecl("Hub", "connectFoundService")
+		recheck = a != nil && b != nil && callsMethod(a.Body, "registerCheckedConnection") && callsMethod(b.Body, "registerCheckedConnection")
+	}
+	fmt.Fprintf(&sb, "Definition hub_stale_attempt_reannounces : bool := %s.\n", b(stale))
+	fmt.Fprintf(&sb, "Definition hub_register_rechecks : bool := %s.\n", b(recheck))
 	writeIfChanged("HubTable.v", sb.String())
 }
